@@ -3,9 +3,20 @@ pub mod c09;
 pub mod c10;
 pub mod c11;
 pub mod c12;
+pub mod cmat;
 
 use crate::runner::Check;
 
 pub fn all() -> Vec<Box<dyn Check>> {
-    vec![Box::new(c07::C07), Box::new(c09::C09), Box::new(c10::C10), Box::new(c11::C11), Box::new(c12::C12)]
+    vec![
+        Box::new(c07::C07),
+        Box::new(c09::C09),
+        Box::new(c10::C10),
+        Box::new(c11::C11),
+        Box::new(c12::C12),
+        Box::new(cmat::C13),
+        Box::new(cmat::C14),
+        Box::new(cmat::C15),
+        Box::new(cmat::C19),
+    ]
 }
